@@ -161,6 +161,9 @@ func r02_1(c *Ctx, rule string) {
 		c.R.Fail(rule, "fsutil.sameFile/compareStat-call", c.P.Pos(same.Pos()), "sameFile no longer calls compareStat")
 	} else {
 		csKey = c.reg(csCall) + "#0"
+		if csCall.Call.Signature().Results().Len() == 1 {
+			csKey = c.reg(csCall) // (the always-nil error result dropped)
+		}
 		// arguments: stat of first param, stat of second param
 		a0, a1 := rootParam(csCall.Call.Args[0]), rootParam(csCall.Call.Args[1])
 		c.R.Check(a0 != nil && a1 != nil && a0 != a1 && isFieldLoad(csCall.Call.Args[0], "fsutil.currentPath.stat") && isFieldLoad(csCall.Call.Args[1], "fsutil.currentPath.stat"),
